@@ -83,8 +83,40 @@ def rule_domain_name(repo: Repo) -> RuleResult:
     return r
 
 
+def rule_goalform(repo: Repo) -> RuleResult:
+    """writer / reader agreement on the goal section: parse_goal_state only reads (:goal (and ...)), so every text the goal writer
+    can return must have that form"""
+    import re as _re
+    from .. import strshape as S
+    from ..core import AnalysisError
+    r = RuleResult("C09.goalform", "every text the goal writer returns is (:goal (and ...)) -- the only form parse_goal_state reads",
+                   "the exported problem parses back: goal literals and numeric goal conditions")
+    f = L.fn(repo, "ProblemExporter.write_goal_state")
+    ev = S.Evaluator(repo, f)
+    rets = [x for x in L.func_returns(f) if x.value is not None]
+    if not rets:
+        raise AnalysisError("ProblemExporter.write_goal_state: no returned text")
+    for rt in rets:
+        r.site(L.site(f, rt, "goal text"))
+        sh = ev.string(rt.value)
+        bad = []
+        for b_ in S.branches(sh):
+            text = S.render(b_, lambda n: "X")
+            if "{?" in text:
+                raise AnalysisError(f"ProblemExporter.write_goal_state: the returned text is not interpreted ({text[:80]!r})")
+            if not _re.match(r"\s*\(:goal\s*\(and\b", text):
+                bad.append(text[:60])
+        if bad:
+            r.fail(Finding("C09.goalform", f, "goal-without-and", f"the goal can be written as {bad[0]!r}: parse_goal_state requires (:goal (and ...)) and "
+                           f"rejects the exported problem", node=rt))
+        else:
+            r.ok({"goal_text": "(:goal (and ...))"})
+    r.require_sites(1)
+    return r
+
+
 def rules(repo: Repo, tier: str) -> List[RuleResult]:
-    return [c08.rule_fields(repo, "C09.fields", FIELD_TABLE), rule_keywords(repo), rule_domain_name(repo),
+    return [c08.rule_fields(repo, "C09.fields", FIELD_TABLE), rule_keywords(repo), rule_domain_name(repo), rule_goalform(repo),
             c08.rule_balance(repo, "C09.balance", ["ProblemExporter.extract_problem", "ProblemExporter.write_objects", "ProblemExporter.write_initial_state",
                                                    "ProblemExporter.write_goal_state", "PDDLFunction.state_representation", "GroundedPredicate.untyped_representation"]),
             c08.rule_polarity(repo, "C09.polarity"), c08.rule_valuetext(repo, "C09.valuetext"), c08.rule_nocollapse(repo, "C09.nocollapse"),
